@@ -19,7 +19,8 @@ fn finite(z: C) -> bool {
 
 fn relc(z: C, r: f64) -> Q {
     if finite(z) {
-        Q::Tol(z.norm() * r)
+        // a relative tolerance cannot be met to better than the spacing of the subnormals
+        Q::Tol(z.norm() * r + 2e-323)
     } else {
         Q::Skip
     }
@@ -344,15 +345,15 @@ fn pow(a: C, b: C, q: Q) -> R {
         return RV::Unspec("U3: non-finite power");
     }
     if a.norm() == 0.0 {
-        // the value of 0^b is fixed where the definition exp(b ln 0) has a limit: 0 for Re b > 0, and 1 for b = 0
-        // (the empty product, eval_f64's pow(0,0) for real operands)
+        // zero is the branch point of the logarithm, so C08's "away from branch cuts" leaves 0^b open for complex b;
+        // for real operands the real-domain clause fixes it: eval_f64's 0^b is 0 for b > 0 and 1 for b = 0
         if b.norm() == 0.0 {
             return approx(q, C::new(1.0, 0.0));
         }
-        if b.re > 0.0 {
+        if b.re > 0.0 && b.im == 0.0 {
             return approx(q, C::new(0.0, 0.0));
         }
-        return RV::Unspec("U3: zero to a power with a non-positive real part");
+        return RV::Unspec("U3: zero to a complex or non-positive power");
     }
     if on_neg_real_cut(a) {
         return RV::Unspec("U3: power with its base on the branch cut");
